@@ -2,6 +2,7 @@
 import argparse
 import importlib
 import json
+import os
 import sys
 import time
 import traceback
@@ -21,6 +22,16 @@ def main():
     ap.add_argument('--only', default=None)
     a = ap.parse_args()
     common.bind_repo()
+    # diagnostics: SIGUSR1 dumps the Python stack of a shard that seems stuck
+    try:
+        import faulthandler
+        import signal
+        faulthandler.register(signal.SIGUSR1, all_threads=True)
+        if os.environ.get('VERIF_DUMP_AFTER'):
+            faulthandler.dump_traceback_later(
+                int(os.environ['VERIF_DUMP_AFTER']), repeat=False)
+    except Exception:
+        pass
     sys.setrecursionlimit(1000)   # CPython default; C20 relies on it
     from . import registry
     info = registry.PROPS[a.prop]
